@@ -36,6 +36,21 @@ OPS = ['append', 'store', 'store', 'store', 'expunge', 'expunge',
 
 def strategy(tier: str) -> Any:
     max_steps = 25 if tier == 'quick' else 60
+    r = st.integers(0, 40)
+    cmd = st.tuples(st.integers(0, 3), st.sampled_from(BURST_OPS), r,
+                    r).map(list)
+    burst = st.fixed_dictionaries({
+        'kind': st.just('burst'),
+        'init': st.lists(st.integers(0, 31), min_size=1, max_size=5),
+        'nsess': st.sampled_from([2, 3, 4]),
+        'rounds': st.lists(st.lists(cmd, min_size=2, max_size=4),
+                           min_size=1, max_size=10),
+    })
+    return st.one_of(_owned(max_steps), _owned(max_steps),
+                     _owned(max_steps), burst)
+
+
+def _owned(max_steps: int) -> Any:
     return st.fixed_dictionaries({
         'backend': st.sampled_from(['dict', 'dict', 'maildir']),
         'init': st.lists(st.integers(0, 31), min_size=1, max_size=6),
@@ -91,7 +106,194 @@ def _sync(ms: MS, out: CaseOut, use_check: bool, where: str) -> None:
                 break
 
 
+# -- commands really in flight together (threading subsystem) -------------------------
+
+BURST_OPS = ['append', 'append', 'store', 'store', 'nstore', 'expunge',
+             'copy', 'move', 'fetch', 'noop']
+
+
+def _burst_case(case: dict[str, Any]) -> CaseOut:
+    """maildir on the threading subsystem (what the command line runs):
+    in every round up to four sessions send one command each *before* the
+    loop runs, so the commands execute in different worker threads at the
+    same time. The interleaving is the operating system's; the oracles used
+    here hold for every interleaving: each session's stream obeys the
+    sequence-number rules, every command is completed, and after the burst a
+    NOOP brings every session to the ground truth."""
+    import shutil
+    import tempfile
+    from harness.client import Client, make_message, probe_dump
+    from harness.multisession import flags_from_mask
+    from harness.servers import maildir_sim
+    from harness.simloop import NoQuiescence
+    out = CaseOut()
+    out.nondeterministic = True
+    tmp = tempfile.mkdtemp(prefix='c02b-')
+    sim = maildir_sim(tmp, threads=True)
+    overlap = 0
+    try:
+        setup = Client(sim, prefix=b's')
+        assert setup.login('alice').ok
+        assert setup.command(b'CREATE Other').ok
+        vid = 0
+        for mask in case['init']:
+            vid += 1
+            m = make_message('i%d' % vid)
+            fl = b' '.join(flags_from_mask(mask))
+            assert setup.command(b'APPEND INBOX (%s) {%d+}' % (fl, len(m)),
+                                 m).ok
+        setup.command(b'LOGOUT')
+        clients = []
+        for k in range(case['nsess']):
+            c = Client(sim, prefix=b'c%d-' % k)
+            assert c.login('alice').ok
+            assert c.select(b'INBOX', learn=True).ok
+            clients.append(c)
+
+        def learn(c: Client) -> None:
+            view = c.shadow.view
+            unknown = [i + 1 for i, u in enumerate(view)
+                       if u is None or c.shadow.flags[i] is None]
+            if unknown and not c.conn.done:
+                c.command(b'FETCH %d:%d (UID FLAGS)' % (unknown[0],
+                                                        unknown[-1]),
+                          nonuid_data_cmd=True)
+
+        def errors(where: str) -> None:
+            for j, c in enumerate(clients):
+                for sig, msg in c.shadow.errors:
+                    out.fail(sig + ':threads', f'session {j}: {msg} '
+                             f'({where})')
+                c.shadow.errors.clear()
+
+        for rno, rnd in enumerate(case['rounds']):
+            if out.failures:
+                break
+            pending: dict[int, tuple[bytes, bool, bytes]] = {}
+            for k, op, a, b in rnd:
+                k %= len(clients)
+                c = clients[k]
+                if k in pending or c.conn.done:
+                    continue
+                uids = [u for u in c.shadow.view if u is not None]
+                n = len(c.shadow.view)
+                nonuid = False
+                fl = b' '.join(flags_from_mask(1 + b % 31))
+                mode = [b'+FLAGS', b'-FLAGS', b'FLAGS'][a % 3]
+                if op == 'append':
+                    vid += 1
+                    m = make_message('b%d' % vid)
+                    cmd = b'APPEND INBOX {%d+}\r\n%s' % (len(m), m)
+                elif op == 'store' and uids:
+                    pick = uids[a % len(uids):][:1 + b % 3]
+                    cmd = b'UID STORE %s %s (%s)' % (
+                        b','.join(b'%d' % u for u in pick), mode, fl)
+                elif op == 'nstore' and n:
+                    cmd = b'STORE %d:%d %s (%s)' % (
+                        1 + a % n, 1 + (a + b) % n, mode, fl)
+                    nonuid = True
+                elif op == 'expunge':
+                    cmd = b'EXPUNGE'
+                elif op in ('copy', 'move') and uids:
+                    pick = uids[a % len(uids):][:1 + b % 2]
+                    cmd = b'UID %s %s Other' % (
+                        op.upper().encode(),
+                        b','.join(b'%d' % u for u in pick))
+                elif op == 'fetch' and n:
+                    cmd = b'FETCH 1:* (UID FLAGS)'
+                    nonuid = True
+                else:
+                    cmd = b'NOOP'
+                tag = c.next_tag()
+                c.conn.feed(tag + b' ' + cmd + b'\r\n')
+                pending[k] = (tag, nonuid, cmd)
+            if len(pending) > 1:
+                overlap += 1
+            try:
+                sim.settle(advance=1.0)
+            except NoQuiescence:
+                out.fail('no-quiescence:threads',
+                         f'round {rno}: {[p[2][:40] for p in pending.values()]}'
+                         f' never all completed')
+                break
+            for k, (tag, nonuid, cmd) in pending.items():
+                c = clients[k]
+                raw = c.conn.take()
+                c.log.append((tag + b' ' + cmd, raw))
+                try:
+                    resps = c.parse(raw)
+                except Exception as exc:
+                    out.fail('unparseable-output:threads',
+                             f'session {k} {cmd[:40]!r}: {exc}')
+                    continue
+                c.shadow.fetch_log.clear()
+                c.shadow.in_nonuid = nonuid
+                for r in resps:
+                    c.shadow.apply(r)
+                c.shadow.in_nonuid = False
+                if not any(r.kind == 'tagged' and r.tag == tag
+                           for r in resps) and not c.conn.done:
+                    out.fail('no-completion:threads',
+                             f'session {k} {cmd[:60]!r} -> {raw[-160:]!r}')
+                if c.conn.done and c.conn.exception is not None:
+                    out.fail('connection-died:threads:'
+                             + type(c.conn.exception).__name__,
+                             f'session {k} {cmd[:60]!r}: '
+                             f'{c.conn.exception!r}')
+            errors(f'round {rno} {[(k, p[2][:30]) for k, p in pending.items()]}')
+            for c in clients:
+                learn(c)
+            errors(f'after round {rno}')
+        # convergence
+        if not out.failures:
+            sim.settle(advance=1.0)
+            d = probe_dump(sim, 'alice', b'INBOX')
+            assert d is not None
+            want = {u: m['flags'] - {b'\\recent'}
+                    for u, m in d['messages'].items()}
+            for j, c in enumerate(clients):
+                if c.conn.done:
+                    continue
+                c.command(b'NOOP')
+                learn(c)
+                errors('final sync')
+                have = {u: f - {b'\\recent'}
+                        for u, f in c.shadow.uid_flags().items()}
+                if set(have) - set(want):
+                    out.fail('stuck-expunge:threads',
+                             f'session {j} still holds '
+                             f'{sorted(set(have) - set(want))}; mailbox '
+                             f'{sorted(want)}')
+                elif set(want) - set(have):
+                    out.fail('lost-new-message:threads',
+                             f'session {j} never told about '
+                             f'{sorted(set(want) - set(have))}')
+                elif have != want:
+                    u = [x for x in want if have[x] != want[x]][0]
+                    out.fail('stale-flags:threads',
+                             f'session {j} UID {u}: {sorted(have[u])} vs '
+                             f'{sorted(want[u])}')
+        import os as _os
+        if out.failures and _os.environ.get('VERIF_DEBUG_LOGS'):
+            for j, c in enumerate(clients):
+                print(f'--- session {j}')
+                for sent, got in c.log[-14:]:
+                    print('   C:', sent[:90], '\n   S:', got[-600:])
+    finally:
+        sim.close()
+        shutil.rmtree(tmp, ignore_errors=True)
+    out.label('maildir-threads', 'burst', 'sessions=%d' % case['nsess'])
+    out.counters['burst_rounds_with_overlap'] = overlap
+    if overlap:
+        out.nontrivial = case_hash(case)
+    out.sample = {'kind': 'burst', 'nsess': case['nsess'],
+                  'rounds': [[x[:2] for x in r] for r in case['rounds'][:6]]}
+    return out
+
+
 def run_case(case: dict[str, Any]) -> CaseOut:
+    if case.get('kind') == 'burst':
+        return _burst_case(case)
     out = CaseOut()
     nontrivial = False
     case = dict(case)
